@@ -138,8 +138,19 @@ Inductive op :=
 Section World.
 Variable world : list pspec.
 
+(* plugin.loadPluginModule, the name lookup.  [world] in os.listdir order is `files`.
+     if name not in files:
+         search = lambda x: re.search(r'(?i)^%s$' % (re.escape(name),), x)
+         matched_names = list(filter(search, files)); name = matched_names[0]   (else ImportError)
+   Since fix C20.F25 the requested name is escaped: the match is the literal name, full length,
+   up to case. *)
+Definition name_matches (n x : str) : bool := seq_eqb (lower n) (lower x).
+
 Definition find_spec (n : str) : option pspec :=
-  find (fun p => seq_eqb (lower (p_name p)) (lower n)) world.
+  match find (fun p => seq_eqb (p_name p) n) world with
+  | Some p => Some p                                        (* name in files *)
+  | None => find (fun p => name_matches n (p_name p)) world (* matched_names[0] *)
+  end.
 
 Inductive imp_res := Mod (p : pspec) | ImpErr | OtherExc.
 
